@@ -3,7 +3,7 @@ from vlib.core import Case, hx
 
 ID = "C03"
 RULE = ("op hdk.derive <seed> <path>: seeds of length 0,1,16,32,64,65,128 and random; depths 1..10 and long paths (up to 513 components, thorough 1000: around 32/64/128/256/512); indices from {0,1,2^31-1,random} x "
-        "{hardened, normal}; mixed sequences; normal below hardened; BIP-32 test vectors 1 and 2; sequences of 2..6 derivations in one thread over a few seeds and textually / structurally related paths (op seq); non-trivial = distinct (seed, path); "
+        "{hardened, normal}; mixed sequences; normal below hardened; BIP-32 test vectors 1, 2, 3 and 4 (leading-zero parent keys); sequences of 2..6 derivations in one thread over a few seeds and textually / structurally related paths (op seq); non-trivial = distinct (seed, path); "
         "judge = Spec.Bip32 (CKDpriv from the standard) with independent HMAC-SHA512 / secp256k1")
 EXHAUSTIVE_SWEEPS = {"quick": [], "thorough": []}
 
@@ -15,6 +15,11 @@ def gen(rng, tier):
              bytes.fromhex("fffcf9f6f3f0edeae7e4e1dedbd8d5d2cfccc9c6c3c0bdbab7b4b1aeaba8a5a29f9c999693908d8a8784817e7b7875726f6c696663605d5a5754514e4b484542")]
     vecs = ["m/0'", "m/0'/1", "m/0'/1/2'", "m/0'/1/2'/2", "m/0'/1/2'/2/1000000000", "m/0", "m/0/2147483647'", "m/0/2147483647'/1",
             "m/0/2147483647'/1/2147483646'", "m/0/2147483647'/1/2147483646'/2", "m/44'/60'/0'/0/0"]
+    # BIP-32 test vectors 3 and 4: parent keys with a leading zero byte under a hardened step (serP/ser256 keep all 32 bytes)
+    for sd_, paths in (("4b381541583be4423346c643850da4b320e46a87ae3d2a4e6da11eba819cd4acba45d239319ac14f863b8d5ab5a0d0c64d2e8a1e7d1457df2e5a3c51c73235be", ["m/0'", "m/0'/1'", "m/0'/0"]),
+                       ("3ddd5602285899a946114506157c7997e5444528f3003f6134712147db19b678", ["m/0'", "m/0'/1'", "m/0'/1'/2"])):
+        for p_ in paths:
+            cases.append(Case("hdk.derive %s %s" % (sd_, hx(p_)), tags=("vector", "leading-zero-parent")))
     for s in seeds:
         for p in vecs:
             cases.append(Case("hdk.derive %s %s" % (hx(s), hx(p)), tags=("vector",)))
